@@ -509,7 +509,8 @@ func TestVerifC02(t *testing.T) {
 				qsp = qspec{q: &query.Substring{Pattern: p, CaseSensitive: cs, Content: true}, desc: fmt.Sprintf("substr(%q,cs=%v)", p, cs), sub: p, cs: cs}
 			} else {
 				p := r.Pick([]string{"fo+", "o.b", "[a-z]+", "a+", "(?s)o.b", "\\s+", "o\\n", "ne+dle", "[é世]+", "x|aa", "aa|aaa", "fo|foo", "foo|oba", "b?ar",
-					"\\n[a-zé世]+", "[a-z]*\\s?\\n+[a-zA-Z]+", "(?s)r.{1,6}f", "\\s+[a-z]"}) // the last four: matches with text AFTER a newline
+					"\\n[a-zé世]+", "[a-z]*\\s?\\n+[a-zA-Z]+", "(?s)r.{1,6}f", "\\s+[a-z]", // these four: matches with text AFTER a newline
+					"\\bfoo\\b", "\\bNeedle\\b", "\\bo\\b", "\\bN\\w+"}) // word boundaries through query.Parse (smart case: \bNeedle\b takes the word fast path)
 				q, err := query.Parse("content:" + p)
 				if err != nil {
 					t.Fatalf("parse %q: %v", p, err)
@@ -638,6 +639,21 @@ func TestVerifC02(t *testing.T) {
 								if chunkMode || c[p] != '\n' {
 									wc[p] = true
 								}
+							}
+						}
+						if chunkMode { // chunk mode: nothing is split or merged — the ranges ARE the engine's non-empty matches
+							var wr [][2]int
+							for _, ix := range re.FindAllIndex(c, -1) {
+								if ix[1] > ix[0] {
+									wr = append(wr, [2]int{ix[0], ix[1]})
+								}
+							}
+							if fmt.Sprint(wr) != fmt.Sprint(rs) {
+								key := "regexp-ranges"
+								if qsp.reAlt {
+									key = "regexp-ranges-alternation"
+								}
+								fail(key, fmt.Sprintf("single regexp: the chunk ranges are not exactly the engine's successive non-empty matches %v", wr))
 							}
 						}
 						for p := range wc {
